@@ -136,7 +136,7 @@ func TestVerif_Poison(t *testing.T) {
 		if err := json.Unmarshal(raw, &sc); err != nil {
 			t.Fatal(err)
 		}
-		if sc.Kind == "metrics" {
+		if sc.Kind == "metrics" || sc.Kind == "fleet" {
 			continue
 		}
 		typ := sc.Format
